@@ -47,6 +47,25 @@ type SymImport struct {
 	Via []int64 `json:"adjusted_first_to,omitempty"`
 }
 
+// settleChain removes what the property leaves open from a chain of sizes: whether a table that was cut
+// and is extended again gets its texts back (a view over shared storage) or not (a copy) is the
+// implementation's business, so after a cut no later size may exceed what was kept.
+func (im *SymImport) settleChain() {
+	kept := int64(len(im.Symbols))
+	for i, n := range im.Via {
+		if kept < int64(len(im.Symbols)) && n > kept {
+			im.Via[i] = kept
+			n = kept
+		}
+		if n < kept {
+			kept = n
+		}
+	}
+	if im.MaxID >= 0 && kept < int64(len(im.Symbols)) && im.MaxID > kept {
+		im.MaxID = kept
+	}
+}
+
 // viaApply runs the chain of Adjust calls on sst and returns it with the texts it has to hold afterwards.
 func (im SymImport) viaApply(sst ion.SharedSymbolTable) (ion.SharedSymbolTable, []string) {
 	texts := append([]string{}, im.Symbols...)
@@ -480,7 +499,7 @@ func importVariants(name string, alpha []string, maxLen int) []SymImport {
 			out = append(out, SymImport{Name: name, Version: 1, Symbols: syms, MaxID: m})
 			// the same size reached after the table was first padded, or first cut by one
 			out = append(out, SymImport{Name: name, Version: 1, Symbols: syms, MaxID: m, Via: []int64{int64(len(syms)) + 3}})
-			if len(syms) > 0 {
+			if len(syms) > 0 && m <= int64(len(syms))-1 {
 				out = append(out, SymImport{Name: name, Version: 1, Symbols: syms, MaxID: m, Via: []int64{int64(len(syms)) - 1}})
 			}
 		}
@@ -625,6 +644,7 @@ func runC09(c *Ctx) {
 				if r.Intn(2) == 0 {
 					im.MaxID = int64(len(syms))
 				}
+				im.settleChain()
 			}
 			k.Imports = append(k.Imports, im)
 		}
@@ -674,10 +694,8 @@ func runC09(c *Ctx) {
 			for ci := range k.Catalog {
 				ct := &k.Catalog[ci]
 				if (int(ct.Name[0])+ct.Version+len(ct.Symbols))%3 == 0 {
-					ct.Via = []int64{int64(len(ct.Symbols) + (ct.Version*7+len(ct.Symbols))%9 - 2)}
-					if ct.Via[0] < 0 {
-						ct.Via[0] = 0
-					}
+					// (padded only: what a cut view gives back when a document declares more is left open)
+					ct.Via = []int64{int64(len(ct.Symbols) + (ct.Version*7+len(ct.Symbols))%7)}
 				}
 			}
 			if r.Intn(8) == 0 {
